@@ -330,8 +330,8 @@ def histories_for(ctx):
     ncorpus = len(hs)
     depth = 3
     ex = exhaustive(depth)
-    smp = sampled(rng, [4, 5, 6], 10000 if quick else 900000)
-    rnd = [gen_history(rng, rng.choice([5, 10, 20, 40, 80])) for _ in range(6000 if quick else 150000)]
+    smp = sampled(rng, [4, 5, 6], 10000 if quick else 1500000)
+    rnd = [gen_history(rng, rng.choice([5, 10, 20, 40, 80])) for _ in range(6000 if quick else 250000)]
     ctx.cov["rule"] = (f"corpus ({ncorpus}) + exhaustive: for each container (map,set,pool) x {len(EX_CONFIGS)} (capacity, capacity, hash) configurations, "
                        f"all op sequences of length <= {depth} over the container's op alphabet ({', '.join(str(len(alphabet(k))) for k in KINDS)} ops; keys 0..3, two tables) "
                        f"after a 3-insert prefix ({len(ex)} histories, complete) + {len(smp)} uniformly drawn sequences of length 4..6 over the same alphabets + {len(rnd)} random histories of 5..80 ops over 2 tables, capacities {CAPS}, hash modes "
